@@ -307,6 +307,8 @@ theorem handle_inv (p : Out → Bool) (hp : Internal p) (app : App) (s : Slots) 
   unfold App.all at hall
   simp only [Bool.and_eq_true] at heff hall
   unfold handle
+  rw [reinit_eq]
+  unfold handleFrom
   simp only
   split
   · exact ⟨init_ok, hp.mkError_all 400 _ [] (by omega) (by omega) rfl⟩
